@@ -86,6 +86,10 @@ class Excel:
         self._handle_cell_of_workbook(first)
         self._handle_cell_of_workbook(second)
 
+        if base.row is None and first.row is not None and second.row is not None:
+            # the shape of A1:A6 laid over a whole column (SUMIF(A1:A6,">1",B:B)) starts at the first row of that column
+            base.row = 0
+
         return Cell(base.title, base.column + (second.column - first.column), base.row + (second.row - first.row) if first.row is not None or second.row is not None else None)
 
     def _get_vertical_range(self, first: Cell, second: Cell) -> list:
